@@ -149,3 +149,18 @@ def template_cases():
                     lambda order=order: f.RegionLagrange(lagrange_mesh(order, 2), order=order, dim=2)))
     out.append(("RegionLagrange(order=2,dim=3)", lambda: f.RegionLagrange(lagrange_mesh(2, 3), order=2, dim=3)))
     return out
+
+
+def random_displacement(rng, mesh, ncomp=None, grad=0.2, noise=0.01, nv=None):
+    """Nodal displacement values of a smooth field with |grad u| <= ~grad plus a little nodal noise (relative to the
+    smallest cell extent): keeps det F well above zero on every element family, incl. higher-order ones."""
+    X = mesh.points
+    dim = X.shape[1]
+    f = smooth_map(rng, dim, eps=grad)
+    u = f(X) - X
+    cells = mesh.cells
+    h = float(np.min(X[cells].max(1) - X[cells].min(1)))
+    u = u + noise * h * rng.uniform(-1, 1, X.shape)
+    if ncomp is not None and ncomp != dim:
+        u = u[:, :ncomp]
+    return u
